@@ -639,7 +639,7 @@ type compatEngine struct{}
 
 func (compatEngine) Run(t *testing.T, batch string, tape *rt.Tape, runIdx uint64, extra json.RawMessage, trace func(string)) RunRecord {
 	rec := RunRecord{Faults: map[string]int{}, Probes: map[string]int{}}
-	recipe := GenScope(tape, GenOpts{MaxObjects: 3, MaxProps: 4, MaxDepth: 2, Prefix: "K"})
+	recipe := GenScope(tape, GenOpts{MaxObjects: 3, MaxProps: 4, MaxDepth: 2, Prefix: "K", NegativeBounds: true})
 	var A *schema.ScopeSchema
 	func() {
 		defer func() { _ = recover() }()
